@@ -246,12 +246,123 @@ pub fn specs(tier: Tier) -> Vec<GenSpec> {
     }
 }
 
+/// the same statement through the whole application: network loaded from files by the graph loader, restrictions built by
+/// the repository's own road-class and vehicle-restriction models from their input files (one edge with two restriction rows),
+/// every ordered origin/destination pair and every destination-less query; oracle = reachability over the permitted edges
+pub fn app_layer(scratch: &crate::world::app::Scratch, net: &Net, st: &mut Stats) {
+    use crate::world::app::AppSpec;
+    let n = net.n;
+    let m = net.m();
+    if m == 0 || n < 2 {
+        return;
+    }
+    let idx = net.hash_idx() as usize;
+    let classes: Vec<u8> = (0..m).map(|e| ((e + idx) % 3 == 0) as u8).collect();
+    let e0 = (idx / 3) % m;
+    let mut spec = AppSpec::simple(net.clone());
+    spec.algorithm = json!({"type": "a*", "weight_factor": 1.0});
+    spec.road_classes = Some(classes.clone());
+    // the vehicle of the queries is lighter than the weight limit and taller than the height limit: one row met, one exceeded
+    spec.vehicle_restrictions = Some(vec![(e0, "maximum_total_weight".into(), 5.0, "tons".into()), (e0, "maximum_height".into(), 4.0, "meters".into())]);
+    spec.frontier = json!({"type": "combined", "models": [
+        {"type": "road_class", "road_class_input_file": "$DIR/road_classes.txt", "road_class_parser": {"mapping": {"local": 0, "highway": 1}}},
+        {"type": "vehicle_restriction", "vehicle_restriction_input_file": "$DIR/vehicle_restrictions.csv"}
+    ]});
+    spec.output_plugins = vec![json!({"type": "traversal", "route": "edge_id", "tree": "edge_id", "geometry_input_file": "$DIR/geometries.txt"})];
+    spec.gzip_graph = idx % 2 == 0;
+    let dir = scratch.path.join(format!("a{}", net.hash_idx()));
+    let app = match spec.build(&dir) {
+        Ok(a) => a,
+        Err(e) => {
+            st.violation("harness", "app_build", 0, || e.clone(), || json!({"net": net}));
+            return;
+        }
+    };
+    let vp = json!({"height": [13.5, "feet"], "width": [2.5, "meters"], "total_length": [60.0, "feet"], "trailer_length": [15.0, "meters"], "total_weight": [4000.0, "kg"], "number_of_axles": 4});
+    let permitted = |e: usize| classes[e] == 0 && e != e0;
+    let mut queries: Vec<(Value, usize, Option<usize>)> = vec![];
+    for o in 0..n {
+        queries.push((json!({"origin_vertex": o, "road_classes": ["local"], "vehicle_parameters": vp}), o, None));
+        for d in 0..n {
+            if o != d {
+                queries.push((json!({"origin_vertex": o, "destination_vertex": d, "road_classes": ["local"], "vehicle_parameters": vp}), o, Some(d)));
+            }
+        }
+    }
+    let batch: Vec<Value> = queries.iter().map(|q| q.0.clone()).collect();
+    let res = match crate::engine::guarded(|| app.run(batch.clone(), None)) {
+        Ok(Ok(r)) => r,
+        Ok(Err(e)) => {
+            st.violation("app", "run_returns_responses", net.size(), || e.to_string(), || json!({"net": net, "app_layer": true}));
+            let _ = std::fs::remove_dir_all(&dir);
+            return;
+        }
+        Err(p) => {
+            st.violation("app", "no_panic", net.size(), || p.clone(), || json!({"net": net, "app_layer": true}));
+            let _ = std::fs::remove_dir_all(&dir);
+            return;
+        }
+    };
+    for (q, o, d) in queries.iter() {
+        st.evaluations += 1;
+        st.transitions += 1;
+        st.traces += 1;
+        let r = match res.iter().find(|r| r["request"] == *q) {
+            Some(r) => r,
+            None => {
+                st.violation("app", "one_response_per_query", net.size(), || format!("no response for {}", q), || json!({"net": net, "app_layer": true, "query": q}));
+                continue;
+            }
+        };
+        let reach = reachable(net, *o, true, &permitted);
+        let case = || json!({"net": net, "app_layer": true, "query": q, "road_classes_table": classes, "restricted_edge": e0});
+        let err = r.get("error").filter(|e| !e.is_null()).map(|e| e.to_string());
+        match d {
+            Some(d) => {
+                let ids: Vec<usize> = r["route"]["path"].as_array().map(|a| a.iter().filter_map(|x| x.as_u64().map(|v| v as usize)).collect()).unwrap_or_default();
+                if reach[*d] {
+                    if err.is_none() && !ids.is_empty() && ids.iter().all(|e| *e < m && permitted(*e)) && route_structure(net, &ids, &Orient::Vertex { o: *o, d: Some(*d) }, false).is_empty() {
+                        st.pass("app_route_when_reachable");
+                    } else {
+                        st.violation("app.vertex_od", "only_route_or_no_path", net.size(), || format!("destination reachable over permitted edges but the response is error {:?} route {:?}", err, ids), case);
+                    }
+                } else if err.as_ref().map_or(false, |e| e.to_lowercase().contains("no path")) && ids.is_empty() {
+                    st.pass("app_no_path_when_unreachable");
+                } else {
+                    st.violation("app.vertex_od", "only_route_or_no_path", net.size(), || format!("destination not reachable over permitted edges but the response is error {:?} route {:?}", err, ids), case);
+                }
+            }
+            None => {
+                // tree rendered as the list of its edge ids: the heads of these edges are exactly the reachable vertices
+                let edges: Vec<usize> = r["tree"].as_array().map(|a| a.iter().filter_map(|x| x.as_u64().map(|v| v as usize)).collect()).unwrap_or_default();
+                let mut got: Vec<usize> = edges.iter().filter(|e| **e < m).map(|e| net.edges[*e].1).collect();
+                got.sort();
+                got.dedup();
+                let want: Vec<usize> = (0..n).filter(|v| *v != *o && reach[*v]).collect();
+                // a cycle back to the origin may add the origin itself
+                let got_wo: Vec<usize> = got.iter().cloned().filter(|v| v != o).collect();
+                if err.is_none() && got_wo == want && edges.iter().all(|e| *e < m && permitted(*e)) {
+                    st.pass("app_tree_is_reachable_set");
+                } else {
+                    st.violation("app.vertex_o", "tree_vertices_are_reachable_set", net.size(), || format!("tree edges {:?} reach {:?}, reference {:?}, error {:?}", edges, got_wo, want, err), case);
+                }
+            }
+        }
+    }
+    let _ = std::fs::remove_dir_all(&dir);
+}
+
 pub fn run(tier: Tier) -> i32 {
     let info = RunInfo::new("C05", tier);
     let specs = specs(tier);
+    let scratch = crate::world::app::Scratch::new("c05");
     let st = par_enumerate(&specs, |_spec, net, st| {
         let idx = net.hash_idx();
         for_net(net, tier, idx, st);
+        // every 40th network also goes through the whole application (graph loader, restriction files, plugins)
+        if idx % 40 == 0 {
+            app_layer(&scratch, net, st);
+        }
         if net.n == 4 && net.m() == 3 {
             st.sample(1, || json!({"net": net, "note": "run with every restriction set of the alphabet, 3-6 algorithms, both directions, vertex and edge orientation, with and without destination"}));
         }
@@ -263,7 +374,10 @@ pub fn run(tier: Tier) -> i32 {
         "state = one labelled multigraph (disconnected ones included); transition = one real search under one edge-local restriction set; oracle = BFS reachability over permitted edges and Bellman-Ford labels; non-trivial = destination unreachable, or more than two reachable vertices",
         true,
         json!({"graph_families": desc, "restriction_sets": tier.pick("none, each single edge, first+last", "every subset of edges")}),
-        vec!["edge costs for the label clause come from the reference formula (distance / time, no access model)".into()],
+        vec![
+            "edge costs for the label clause come from the reference formula (distance / time, no access model)".into(),
+            "application layer (every 40th network): files written by the harness, loaded by the repository's graph loader and restriction builders; road-class and vehicle-restriction models combined, one edge with two restriction rows".into(),
+        ],
     )
 }
 
